@@ -38,7 +38,7 @@ def gen_cases(seed, tier):
         sv = ["vi", "pi", "rvi", "per", "sa"][i % 5]
         nm = names[(i // 5) % 5]
         c = dict(solver=sv, f=int(rng.choice([1, 2, 3])), m=int(rng.choice([2, 3, 5])), asyn=bool(rng.integers(0, 2)),
-                 k=int(rng.integers(3, 9)), devices=1,
+                 k=int(rng.integers(3, 14)), devices=1,     # run lengths on both sides of the 9 -> 10 digit boundary
                  ov=dict(newdir=bool(rng.random() < 0.7), f=int(rng.choice([0, 1, 4])) or None,
                          m=int(rng.choice([0, 1, 4])) or None, asyn=[None, True, False][int(rng.integers(0, 3))]),
                  period=int(rng.integers(2, 5)), random_seed=int(rng.integers(0, 1000)), vkw=_variant(sv, rng),
